@@ -184,6 +184,16 @@ func own(c *mon.Ctx, r *gen.Rand) {
 	if g := d.DecodeIso639AudioType(); g != at {
 		c.Fail("decode:iso639-audio-type", fmt.Sprintf("DecodeIso639AudioType = %#x, encoded %#x", g, at), wit{Case: "iso639", Body: mon.Hex(body), Detail: fmt.Sprint(g)})
 	}
+	// the decoders of the other kinds, asked on the same object after its own decoder has answered
+	if g := d.DecodeTTMLIso639LanguageCode(); g != "" {
+		c.Fail("neutral:DecodeTTMLIso639LanguageCode-after-own-decoder", fmt.Sprintf("DecodeTTMLIso639LanguageCode on an ISO-639 language descriptor = %q after DecodeIso639LanguageCode had been called on it", g), wit{Case: "iso639", Body: mon.Hex(body), Detail: g})
+	}
+	if g := d.DecodeMaximumBitRate(); g != 0 {
+		c.Fail("neutral:DecodeMaximumBitRate-after-own-decoder", fmt.Sprintf("DecodeMaximumBitRate on an ISO-639 language descriptor = %d", g), wit{Case: "iso639", Body: mon.Hex(body)})
+	}
+	if d.IsDolbyVision() || d.IsTTMLSubtitlingDescriptor() || d.IsMaximumBitrateDescriptor() {
+		c.Fail("neutral:other-kinds-after-own-decoder", "an ISO-639 language descriptor answers as a descriptor of another kind after its own decoder was used", wit{Case: "iso639", Body: mon.Hex(body)})
+	}
 	{
 		// decoded values stay what they were when the caller re-uses the body buffer
 		kept := d.DecodeIso639LanguageCode()
@@ -216,6 +226,9 @@ func own(c *mon.Ctx, r *gen.Rand) {
 	}
 	if g := d.DecodeTTMLSubtitlePurpose(); wellFormed && g != purpose {
 		c.Fail("decode:ttml-purpose", fmt.Sprintf("DecodeTTMLSubtitlePurpose = %#x, encoded %#x", g, purpose), wit{Case: "ttml", Body: mon.Hex(body), Detail: fmt.Sprint(g)})
+	}
+	if g := d.DecodeIso639LanguageCode(); g != "" {
+		c.Fail("neutral:DecodeIso639LanguageCode-after-own-decoder", fmt.Sprintf("DecodeIso639LanguageCode on a DVB extension descriptor = %q after the TTML decoders had been called on it", g), wit{Case: "ttml", Body: mon.Hex(body), Detail: g})
 	}
 	if g := d.IsTTMLDescTagExtension(); g != (ext == 0x20) {
 		c.Fail("decode:ttml-tag-extension", fmt.Sprintf("IsTTMLDescTagExtension = %v for tag extension %#x", g, ext), wit{Case: "ttml", Body: mon.Hex(body)})
